@@ -264,10 +264,12 @@ def make_cp_classes(o, c, per, s, d):
     if d:
 
         def deleter(cls):
+            if cls.fail[0]:
+                raise RuntimeError("deleter failed")  # a deletion that fails discards nothing
             cls.log.append(("del", cls.__name__))
 
         cp = cp.deleter(deleter)
-    Base = type("Base", (), {"p": cp, "state": [0], "log": []})
+    Base = type("Base", (), {"p": cp, "state": [0], "log": [], "fail": [False]})
     Mid = type("Mid", (Base,), {})
     Leaf = type("Leaf", (Mid,), {})
     return {"Base": Base, "Mid": Mid, "Leaf": Leaf}
@@ -279,6 +281,7 @@ CP_OPS = (
     + [("iread", k) for k in CP_CLASSES]
     + [("iassign", k) for k in CP_CLASSES]
     + [("idelete", k) for k in CP_CLASSES]
+    + [("idelete_failing", k) for k in ("Base", "Leaf")]
     + [("bump", None)]
 )
 
@@ -310,7 +313,9 @@ class CPModel:
                 self.cache[self.key(k)] = v
                 return ("ok", None, "override")
             return ("exc", AttributeError)
-        if op == "idelete":
+        if op == "idelete_failing" and self.d:
+            return ("exc", RuntimeError)  # the user's deleter raises: nothing is discarded, nothing logged
+        if op in ("idelete", "idelete_failing"):
             key = self.key(k)
             had = key in self.cache
             if had:
@@ -350,8 +355,12 @@ def run_cp(ctx, params):
                     elif op == "iassign":
                         insts[k].p = v
                         got = ("ok", None)
-                    elif op == "idelete":
-                        del insts[k].p
+                    elif op in ("idelete", "idelete_failing"):
+                        classes["Base"].fail[0] = op == "idelete_failing"
+                        try:
+                            del insts[k].p
+                        finally:
+                            classes["Base"].fail[0] = False
                         got = ("ok", None)
                     else:
                         classes["Base"].state[0] += 1
